@@ -246,6 +246,7 @@ func runC08(c *kit.Ctx) {
 	// ---- R5 ---------------------------------------------------------------
 	c.StartRule("R5", "the three discoverers treat (overlaps, replaced) alike", 3)
 	discoverersDetachOverlaps(c)
+	cacheDelAlwaysDetaches(c)
 	establisherHandoff(c)
 	regionAttributesAreImmutable(c)
 	noResponseBufferRecycling(c)
